@@ -287,7 +287,7 @@ func genC14(tier string, r *core.Rand) Plan {
 	bigWrite := r.Chance(0.12)
 	faultLines := r.Chance(0.06)
 	dialFail := r.Chance(0.07)
-	remoteDisc := r.Chance(0.15)
+	remoteDisc := r.Chance(0.15) && (plain || g.stress == "malformed" || g.stress == "coalesced")
 	accept := r.Chance(0.3)
 	second := r.Chance(0.12)
 
